@@ -199,6 +199,17 @@ def canon_result(r):
                        "uo": sorted(([x["c"], sorted(x["p"])] for x in r["uo"]))}, sort_keys=True)
 
 
+def _load_mem_role():
+    try:
+        with open(os.path.join(os.path.dirname(os.path.dirname(os.path.dirname(os.path.abspath(__file__)))), "vocab", "mem_forms.json")) as fh:
+            return json.load(fh).get("_mem_role", {})
+    except Exception:  # noqa
+        return {}
+
+
+MEM_ROLE = _load_mem_role()
+
+
 def observed_roles(form):
     so = form.semantic_operands
     roles = []
@@ -713,6 +724,14 @@ def _shipped_worker(args):
             for f in forms:
                 kernel.append({"n": list(f.mnemonic), "ops": [lc.clean(project_written(isa, o)) for o in f.operands],
                                "roles": observed_roles(f)})
+                # whether the memory operand is loaded, stored or both is the premise of the composition: for
+                # the curated lines it is known from the architecture manuals (vocab/mem_forms.json _mem_role)
+                for pos, (o, r) in enumerate(zip(f.operands, observed_roles(f))):
+                    want = MEM_ROLE.get(isa, {}).get("%s:%d" % (f.mnemonic.lower(), pos))
+                    if want and type(o).__name__ == "MemoryOperand" and r != want:
+                        fails.append(("C08:%s:memory-role:%s:%s" % (isa, f.mnemonic.lower(), arch),
+                                      "%s: memory operand of %r is analysed as %r, architecturally it is %r" % (arch, f.line.strip() if f.line else f.mnemonic, r, want),
+                                      {"where": "shipped model %s" % arch, "lines": kernel_lines, "arch": arch, "isa": isa}))
             names = []
             for f in forms:
                 for nm in (f.mnemonic.upper(), (lambda x: x.upper() if x else None)(_drop(isa, f.mnemonic))):
